@@ -9,7 +9,8 @@ for f in spec/*.tla; do
   case "$(basename "$f")" in
     Apa_*)
       # Apalache wrappers EXTEND the Apalache module (inside Apalache's own jar): they are type-checked by apalache-mc
-      out=$(cd spec && timeout 300 apalache-mc typecheck --out-dir=../.work/apa-setup "$(basename "$f")" 2>&1) || true
+      rm -rf .work/apa-setup && mkdir -p .work/apa-setup && cp spec/*.tla .work/apa-setup/
+      out=$(cd .work/apa-setup && timeout 300 apalache-mc typecheck --out-dir=out "$(basename "$f")" 2>&1) || true
       rm -rf .work/apa-setup
       if ! echo "$out" | grep -q "Type checker \[OK\]"; then
         echo "APALACHE TYPECHECK FAILED: $f"; echo "$out" | tail -20; rc=2
